@@ -62,6 +62,19 @@ def shard(ctx):
     for kind, lab, data in [("plist.boot", "minimal-header", b"X-Patch-Length: 1\r\n"), ("plist.game", "minimal-header", b"X-Patch-Length: 1\r\n"),
                             ("plist.boot", "header-twice", b"x-patch-length: 7\r\nX-Patch-Length: 1\r\n\r\n"), ("exl", "minimal-exl", b"EXLT,2\r\n"), ("cfg", "minimal-cfg", b"<A>\r\nk\tv\r\n")]:
         jobs.append((kind, lab, data, dict(text=True, small=True)))
+    # brackets of a category line in every wrong order and number
+    for i, t in enumerate([b"\r\n>A<\r\nk\tv\r\n", b"><", b">x<y>\r\nk\tv\r\n", b"<>\r\n", b"a>b<c\r\n", b">\r\n<\r\n", b"<<A>>\r\nk\tv\r\n", b"<A><B>\r\n", b">Sound Settings<\r\nVol\t1\r\n"]):
+        jobs.append(("cfg", "brackets-%d" % i, t, dict(text=True, small=True)))
+    # patch lists in which one numeric column already holds an extreme value in every row: the ordinary token faults then put a second
+    # extreme value into any other field (two values that are harmless alone: a length of -2^63 next to a block size of -1)
+    for kind, text_ in (("plist.game", seeds.PLIST_GAME), ("plist.boot", seeds.PLIST_BOOT)):
+        head, _, body = text_.partition("\r\n\r\n")
+        rows = body.split("\r\n")
+        ncol = max(len(r_.split("\t")) for r_ in rows)
+        for c in [c for c in range(ncol) if all(len(r_.split("\t")) <= c or r_.split("\t")[c].lstrip("-").isdigit() for r_ in rows if "\t" in r_)]:
+            for v in (-2 ** 63, -1, 0, 2 ** 63 - 1, 2 ** 64 - 1):
+                nb = "\r\n".join("\t".join(str(v) if i == c else f for i, f in enumerate(r_.split("\t"))) if "\t" in r_ else r_ for r_ in rows)
+                jobs.append((kind, "column-%d=%d" % (c, v), (head + "\r\n\r\n" + nb).encode(), dict(text=True, small=True)))
     # chat logs whose offset table is not ascending (descending, alternating, all equal): an entry must not be taken to run to the
     # end of the file (or anywhere) because its successor lies before it
     for name, offs in (("descending", lambda n, L: [L * (n - 1 - i) for i in range(n)]), ("alternating", lambda n, L: [0 if i % 2 == 0 else L * n for i in range(n)]),
